@@ -23,6 +23,7 @@ def sh(cmd, **kw):
 def main():
     _, cmd, prop, slug = sys.argv[:4]
     allchecks = '--all' in sys.argv
+    summary = sys.argv[sys.argv.index('--summary') + 1] if '--summary' in sys.argv else ''
     wt = '/tmp/seed/wt_%s' % prop
     out = os.path.join(wt, 'seeded_out')
     patch = os.path.join(out, 'patch.diff')
@@ -64,6 +65,7 @@ def main():
     meta = {
         'breaks_property': prop,
         'slug': slug,
+        'summary': summary,
         'needs_to_manifest': open(notes).read()[:1500] if os.path.exists(notes) else '',
         'confirmed': {'suite_with_patch': suite.stdout.strip().splitlines()[-2:], 'demo_with_patch_exit': d1.returncode,
                       'demo_without_patch_exit': d0.returncode,
